@@ -462,6 +462,9 @@ func (cs *clientStream) doHttpCall(transport http.RoundTripper, req *http.Reques
 
 	var rErr error
 	rMuHeld := false
+	// readFailed is set when rErr (or cs.rErr) is what a read of the reply
+	// body returned, as opposed to an error this function made itself
+	readFailed := false
 
 	// The rest of the reply body is drained only after the stream has been
 	// marked done (this runs last). Draining first, with rMu still held, can
@@ -499,9 +502,12 @@ func (cs *clientStream) doHttpCall(transport http.RoundTripper, req *http.Reques
 		}
 		if cs.rErr != nil {
 			if ctxErr := cs.ctx.Err(); ctxErr != nil {
-				if _, ok := status.FromError(cs.rErr); !ok {
+				if _, ok := status.FromError(cs.rErr); !ok || readFailed {
 					// reading the reply failed because the RPC was cancelled
 					// or timed out: report that as a status, like RecvMsg does
+					// (whatever the read returned: net/http fails it with the
+					// context's cancellation cause, which may itself be - or
+					// wrap - some unrelated status error)
 					cs.rErr = statusFromContextError(ctxErr)
 				}
 			}
@@ -583,6 +589,7 @@ func (cs *clientStream) doHttpCall(transport http.RoundTripper, req *http.Reques
 		var sz int32
 		sz, rErr = readSizePreface(reply.Body)
 		if rErr != nil {
+			readFailed = true
 			if rErr == io.EOF {
 				// a complete response always ends with a trailer message, so
 				// a clean end of the body here means it was cut short
@@ -596,6 +603,7 @@ func (cs *clientStream) doHttpCall(transport http.RoundTripper, req *http.Reques
 			rMuHeld = true // defer above will unlock for us
 			cs.rErr = readProtoMessage(reply.Body, cs.codec, int32(-sz), &cs.tr)
 			if cs.rErr != nil {
+				readFailed = true
 				if cs.rErr == io.EOF {
 					cs.rErr = io.ErrUnexpectedEOF
 				}
@@ -613,6 +621,7 @@ func (cs *clientStream) doHttpCall(transport http.RoundTripper, req *http.Reques
 		msg := make([]byte, sz)
 		_, rErr = io.ReadAtLeast(reply.Body, msg, int(sz))
 		if rErr != nil {
+			readFailed = true
 			if rErr == io.EOF {
 				rErr = io.ErrUnexpectedEOF
 			}
